@@ -217,7 +217,9 @@ class CasXmiDeserializer:
                 value = fs[feature_name]
 
                 if feature_name == "sofa":
-                    fs[feature_name] = sofas[value]
+                    # A structure that is not indexed does not need to have a sofa
+                    if value is not None:
+                        fs[feature_name] = sofas[value]
                     continue
 
                 if fs.type.name not in is_instance_of_string_array_map:
